@@ -400,12 +400,12 @@ class RunMonitor:
         orig = bb.contraints_check
 
         def make(site_ns):
-            def cc(U, lb, ub, tol_mesh, function_logger, proj=True, non_box_cons=None):
+            def cc(U, lb, ub, tol_mesh, function_logger, proj=True, non_box_cons=None, *xa, **xkw):
                 Uin = np.atleast_2d(np.array(U, float, copy=True))
                 scripted = None
                 if mon.filter_script is not None and function_logger is mon.fl:
                     scripted = mon._filter_script_decision(site_ns)
-                out = orig(U, lb, ub, tol_mesh, function_logger, proj, non_box_cons)
+                out = orig(U, lb, ub, tol_mesh, function_logger, proj, non_box_cons, *xa, **xkw)
                 if scripted is not None:
                     out = mon._apply_filter_script(out, scripted)
                 if function_logger is mon.fl:
@@ -613,8 +613,9 @@ class RunMonitor:
 
         o_pm = bb.poll_mads_2n
 
-        def pm(dim_x, poll_scale, search_mesh_size, mesh_size):
-            Bm = o_pm(dim_x, poll_scale, search_mesh_size, mesh_size)
+        def pm(dim_x, poll_scale, search_mesh_size, mesh_size, *xa, **xkw):
+            # (extra arguments a changed tree may pass are handed through untouched: the seam observes, it does not constrain)
+            Bm = o_pm(dim_x, poll_scale, search_mesh_size, mesh_size, *xa, **xkw)
             if mon.cur_poll is not None:
                 mon.cur_poll["gens"].append({"B": np.array(Bm, copy=True), "poll_scale": np.array(poll_scale, float, copy=True),
                                              "sms": float(search_mesh_size), "ms": float(mesh_size)})
@@ -908,15 +909,15 @@ class RunMonitor:
         mon = self
         o_call = es.ESSearch.__call__
 
-        def es_call(s, u, lb, ub, func_logger, gp, optim_state, sum_rule=True, non_box_cons=None):
+        def es_call(s, u, lb, ub, func_logger, gp, optim_state, sum_rule=True, non_box_cons=None, *xa, **xkw):
             if func_logger is not mon.fl:
-                return o_call(s, u, lb, ub, func_logger, gp, optim_state, sum_rule, non_box_cons)
+                return o_call(s, u, lb, ub, func_logger, gp, optim_state, sum_rule, non_box_cons, *xa, **xkw)
             st = {"acq": [], "gen_in": [], "gen_out": [], "lbs": np.array(optim_state["lb_search"], float).ravel(),
                   "ubs": np.array(optim_state["ub_search"], float).ravel(), "sms": float(optim_state["search_mesh_size"]),
                   "cls": type(s).__name__}
             mon.cur_es = st
             try:
-                out = o_call(s, u, lb, ub, func_logger, gp, optim_state, sum_rule, non_box_cons)
+                out = o_call(s, u, lb, ub, func_logger, gp, optim_state, sum_rule, non_box_cons, *xa, **xkw)
             finally:
                 mon.cur_es = None
             mon._es_exit(st, out)
@@ -943,8 +944,8 @@ class RunMonitor:
 
         o_h = sh.ESSearchHedge.__call__
 
-        def hedge_call(h, u, lb, ub, func_logger, gp, optim_state):
-            out = o_h(h, u, lb, ub, func_logger, gp, optim_state)
+        def hedge_call(h, u, lb, ub, func_logger, gp, optim_state, *xa, **xkw):
+            out = o_h(h, u, lb, ub, func_logger, gp, optim_state, *xa, **xkw)
             if func_logger is mon.fl and "C18" in mon.want:
                 mon.c("C18.hedge_calls")
                 p = np.asarray(h.prob, float)
@@ -1135,8 +1136,8 @@ class RunMonitor:
 
         o_nb = gpt.get_grid_search_neighbors
 
-        def nb(function_logger, u, gp, options, optim_state):
-            out = o_nb(function_logger, u, gp, options, optim_state)
+        def nb(function_logger, u, gp, options, optim_state, *xa, **xkw):
+            out = o_nb(function_logger, u, gp, options, optim_state, *xa, **xkw)
             if function_logger is mon.fl and c15:
                 mon.last_neighbors = (np.array(out[0], copy=True), np.array(out[1], copy=True), None if out[2] is None else np.array(out[2], copy=True))
                 mon._after_neighbors(function_logger, u, gp, options, optim_state, out)
@@ -1146,11 +1147,11 @@ class RunMonitor:
 
         o_loc = bb.local_gp_fitting
 
-        def loc(gp, current_point, function_logger, options, optim_state, iteration_history, refit_flag):
+        def loc(gp, current_point, function_logger, options, optim_state, iteration_history, refit_flag, *xa, **xkw):
             mon.last_neighbors = None
             if function_logger is mon.fl and c15:
                 mon._check_reference_point(current_point, iteration_history)
-            out = o_loc(gp, current_point, function_logger, options, optim_state, iteration_history, refit_flag)
+            out = o_loc(gp, current_point, function_logger, options, optim_state, iteration_history, refit_flag, *xa, **xkw)
             if function_logger is mon.fl and c15:
                 g = out[0]
                 mon.c("C15.local_fit_exits")
@@ -1166,9 +1167,9 @@ class RunMonitor:
 
         o_add = bb.add_and_update_gp
 
-        def add(function_logger, gp, x_new, y_new, sd_new=None, options=None):
+        def add(function_logger, gp, x_new, y_new, sd_new=None, options=None, *xa, **xkw):
             n0 = gp.X.shape[0]
-            out = o_add(function_logger, gp, x_new, y_new, sd_new, options)
+            out = o_add(function_logger, gp, x_new, y_new, sd_new, options, *xa, **xkw)
             if function_logger is mon.fl and mon.cur_poll is not None and "C13" in mon.want:
                 try:
                     mu_, s2_ = out.predict(np.atleast_2d(x_new))
@@ -1453,6 +1454,13 @@ class RunMonitor:
         sp["target_frame"] = {"plb": self.spec["plb"], "pub": self.spec["pub"], "lb": self.spec["lb"], "ub": self.spec["ub"]}
         po = {k: v for k, v in P.options.items() if k in ("uncertainty_handling", "specify_target_noise", "noise_size")}
         po.update(display="off", random_seed=int(rs.randint(1, 10**6)), max_fun_evals=int(rs.choice([12, 25, 40])))
+        # the pilot may DECLARE another noise policy for the same callable (a deterministic target declared noisy, an
+        # auto-detected noisy one declared deterministic): per-instance policy must not reach the monitored instance
+        if P.mode == "det" and rs.rand() < 0.5:
+            po["uncertainty_handling"] = True
+            po["noise_final_samples"] = int(rs.choice([1, 5]))
+        elif P.mode in ("auto", "declared") and rs.rand() < 0.3:
+            po["uncertainty_handling"] = False
         for nm, vals in (("tol_fun", [0.1, 1.0]), ("tol_mesh", [1e-2, 1e-3]), ("max_iter", [3, 6]), ("n_search", [512]), ("fun_eval_start", [4, 9])):
             if rs.rand() < 0.4:
                 po[nm] = vals[int(rs.randint(len(vals)))]
@@ -1666,6 +1674,13 @@ class RunMonitor:
                 self.v("C13/mesh-not-power-of-two", where="result", mesh=r["mesh_size"], k=int(b.mesh_size_integer))
         # ---------------- C04
         obs_at_x = self._obs_at(xb)
+        user_det = P.mode == "det" and not P.options.get("uncertainty_handling") and not P.options.get("specify_target_noise")
+        if "C04" in self.want and user_det and not det:
+            # a deterministic callable, nothing declared by the user: the noise test sees two identical values, so the run
+            # must be handled (and reported) as deterministic - whatever this instance's options look like from inside
+            self.c("C04.results")
+            self.v("C04/deterministic-target-handled-as-noisy", uncertainty_handling_level=uhl, target_type=r["target_type"],
+                   option_seen_by_instance=repr(b.options.get("uncertainty_handling")))
         if "C04" in self.want and det and P.mode == "det":
             self.c("C04.results")
             ys = [e["y"] for e in self.calls if "y" in e]
@@ -1712,8 +1727,14 @@ class RunMonitor:
                 self.c("C05.classification_judged")
                 diff = abs(e0["y"] - e1["y"])
                 sto = r["target_type"].startswith("stochastic")
-                if (diff > self.tol_noise) != sto:
-                    self.v("C05/noise-classification-wrong", diff=diff, tol_noise=self.tol_noise, target_type=r["target_type"])
+                # tol_noise as the USER specified it: the given value, else the documented default eps * tol_fun (the
+                # user's tol_fun, else 1e-3) - not whatever the instance carries internally
+                uo = P.options
+                tol_doc = float(uo["tol_noise"]) if uo.get("tol_noise") is not None else float(np.spacing(1.0) * float(uo.get("tol_fun", 1e-3)))
+                if tol_doc != self.tol_noise:
+                    self.c("C05.instance_tol_noise_differs_from_documented")
+                if (diff > tol_doc) != sto:
+                    self.v("C05/noise-classification-wrong", diff=diff, tol_noise=tol_doc, tol_noise_seen_by_instance=self.tol_noise, target_type=r["target_type"])
                 if sto:
                     self.c("C05.auto_detected_stochastic")
             else:
